@@ -41,3 +41,47 @@ def strRun (v : List Rune) : Nat → List Rune → Option Nat
 def strAccepts (v w : List Rune) : Bool := strRun v 0 w == some v.length
 
 end Emerge.Lexgen
+
+namespace Emerge.Lexgen
+
+/-! ### `groupDFAStates` and the emitted `advanceDFA` / `evalDFA` switches -/
+
+abbrev Trans := List (Nat × Rune × Nat)
+
+/-- the automaton's transition function, given as a list of (from, symbol, to) -/
+def next (t : Trans) (s : Nat) (r : Rune) : Option Nat :=
+  (t.find? (fun e => e.1 == s && e.2.1 == r)).map (·.2.2)
+
+/-- no two transitions from one state on one symbol -/
+def Deterministic (t : Trans) : Prop :=
+  ∀ s r n m, (s, r, n) ∈ t → (s, r, m) ∈ t → n = m
+
+/-- `groups[from][to] = symbols`: what `groupDFAStates` builds (as association lists) -/
+abbrev Groups := List (Nat × List (Nat × List Rune))
+
+def addRow (rows : List (Nat × List Rune)) (to : Nat) (r : Rune) : List (Nat × List Rune) :=
+  match rows with
+  | [] => [(to, [r])]
+  | (n, rs) :: rest => if n = to then (n, rs ++ [r]) :: rest else (n, rs) :: addRow rest to r
+
+def addTrans (g : Groups) (s : Nat) (r : Rune) (to : Nat) : Groups :=
+  match g with
+  | [] => [(s, [(to, [r])])]
+  | (f, rows) :: rest => if f = s then (f, addRow rows to r) :: rest else (f, rows) :: addTrans rest s r to
+
+def group (t : Trans) : Groups := t.foldl (fun g e => addTrans g e.1 e.2.1 e.2.2) []
+
+/-- the emitted `switch state { case from: switch r { case symbols…: return to } }` -/
+def evalRows (rows : List (Nat × List Rune)) (r : Rune) : Option Nat :=
+  (rows.find? (fun row => row.2.contains r)).map (·.1)
+
+def evalSwitch (g : Groups) (s : Nat) (r : Rune) : Option Nat :=
+  match g.find? (fun e => e.1 == s) with
+  | none => none
+  | some (_, rows) => evalRows rows r
+
+/-- the emitted `evalDFA`: one `case states…: return terminal` per definition that owns states -/
+def evalFinals (fs : List (String × List Nat)) (s : Nat) : Option String :=
+  (fs.find? (fun f => f.2.contains s)).map (·.1)
+
+end Emerge.Lexgen
